@@ -19,12 +19,32 @@ import (
 
 type gen struct {
 	inRangeFunc int
-	t      *rapid.T
-	b      strings.Builder
-	unit   int
-	nfn    int
-	feats  map[string]bool
-	goexit bool
+	t           *rapid.T
+	b           strings.Builder
+	unit        int
+	nfn         int
+	feats       map[string]bool
+	goexit      bool
+	nested      bool         // this unit may run recoverers in functions called (directly or not) by a deferred call
+	fi          int          // index of the function being generated
+	reach       map[int]bool // function index -> it, or something it calls or defers, registers a recoverer
+	curRecov    bool
+	curRefs     bool
+	stormy      bool // the function being generated prefers recovering and panicking deferred calls
+}
+
+// canDeferCallee reports whether `defer f<fi+1>(..)` may be emitted: a recoverer that runs in a frame below a
+// deferred call while a panic is in flight is the listed finding C04:recover-below-panicking-deferred-call, confined
+// to dedicated ("nested") units.
+func (g *gen) canDeferCallee() bool {
+	if !g.reach[g.fi+1] {
+		return true
+	}
+	if g.nested {
+		g.feats["recover_below_deferred_call"] = true
+		return true
+	}
+	return false
 }
 
 func (g *gen) pick(n int, label string) int { return rapid.IntRange(0, n-1).Draw(g.t, label) }
@@ -120,6 +140,7 @@ func (g *gen) body(depth, budget int, inLoop bool) {
 			// iterator still on the stack is an unsettled corner that gc polices with its own run-time error)
 			fmt.Fprintf(&g.b, "%sdefer func() {\n%s\tif e := recover(); e != nil {\n%s\t\tprintln(\"#\", %d, \"recovered\", %d, pv(e))\n%s\t\tr = r*10 + %d\n%s\t}\n%s}()\n", ind, ind, ind, g.unit, id, ind, id%7, ind, ind)
 			g.feat(inLoop, "recoverer")
+			g.curRecov = true
 		case k == 7:
 			fmt.Fprintf(&g.b, "%sdefer func() { tr(%d, %d, x); panic(%d) }() // replaces the current panic\n", ind, g.unit, id, id+500)
 			g.feat(inLoop, "repanic")
@@ -160,14 +181,128 @@ func (g *gen) body(depth, budget int, inLoop bool) {
 			callee := g.nfn + 1
 			fmt.Fprintf(&g.b, "%sx += f%d_%d(x %% 7)\n", ind, g.unit, callee)
 			g.feats["call_chain"] = true
-		case k == 16 && g.nfn < 4:
+			g.curRefs = true
+		case k == 16 && g.nfn < 4 && g.canDeferCallee():
 			callee := g.nfn + 1
+			g.curRefs = true
 			fmt.Fprintf(&g.b, "%sdefer f%d_%d(x %% 5) // deferred call that has defers of its own\n", ind, g.unit, callee)
 			g.feat(inLoop, "defer_call")
 		default:
 			fmt.Fprintf(&g.b, "%sx++\n", ind)
 		}
 	}
+}
+
+// deferStmt emits one defer statement of a drawn kind.
+func (g *gen) deferStmt(ind string, inLoop bool) {
+	id := g.pick(90, "id") + 10
+	k := g.pick(6, "deferkind")
+	if g.stormy && g.pick(2, "stormy") == 0 {
+		k = 2 + g.pick(2, "recover_or_panic")
+	}
+	if k == 2 && g.inRangeFunc > 0 {
+		k = 0
+	}
+	if k == 5 && (g.nfn >= 4 || !g.canDeferCallee()) {
+		k = 1
+	}
+	switch k {
+	case 0:
+		fmt.Fprintf(&g.b, "%sdefer traceArg(%d, %d, x)\n", ind, g.unit, id)
+		g.feat(inLoop, "defer_args")
+	case 1:
+		fmt.Fprintf(&g.b, "%sdefer func() { traceArg(%d, %d, x); r += %d }()\n", ind, g.unit, id, id)
+		g.feat(inLoop, "defer_closure")
+	case 2:
+		fmt.Fprintf(&g.b, "%sdefer func() {\n%s\tif e := recover(); e != nil {\n%s\t\tprintln(\"#\", %d, \"recovered\", %d, pv(e))\n%s\t\tr = r*10 + %d\n%s\t}\n%s}()\n", ind, ind, ind, g.unit, id, ind, id%7, ind, ind)
+		g.feat(inLoop, "recoverer")
+		g.curRecov = true
+	case 3:
+		fmt.Fprintf(&g.b, "%sdefer func() { tr(%d, %d, x); panic(%d) }()\n", ind, g.unit, id, id+500)
+		g.feat(inLoop, "repanic")
+	case 4:
+		fmt.Fprintf(&g.b, "%sdefer func(a, b int) { traceArg(%d, a, b) }(%d, x+1)\n", ind, g.unit, id)
+		g.feat(inLoop, "defer_args")
+	case 5:
+		fmt.Fprintf(&g.b, "%sdefer f%d_%d(x %% 5)\n", ind, g.unit, g.nfn+1)
+		g.feat(inLoop, "defer_call")
+		g.curRefs = true
+	}
+}
+
+// skeleton emits a function body that is a sequence of defer-registering segments (plain, conditional, counted loop,
+// range-over-func) followed by a terminator, so that functions mixing several kinds of defer site, and Goexit/panic
+// meeting panicking and recovering deferred calls, are common rather than a rare product of independent choices.
+func (g *gen) skeleton() {
+	g.feats["skeleton"] = true
+	g.stormy = g.pick(3, "stormyFn") == 0
+	defer func() { g.stormy = false }()
+	nseg := 2 + g.pick(4, "nseg")
+	shape := ""
+	for s := 0; s < nseg; s++ {
+		kind := g.pick(4, "segkind")
+		shape += string("pclr"[kind])
+		nd := 1 + g.pick(2, "ndefers")
+		switch kind {
+		case 0:
+			for d := 0; d < nd; d++ {
+				g.deferStmt("\t", false)
+			}
+		case 1:
+			fmt.Fprintf(&g.b, "\tif x%%2 == %d {\n", g.pick(2, "parity"))
+			for d := 0; d < nd; d++ {
+				g.deferStmt("\t\t", false)
+			}
+			fmt.Fprintf(&g.b, "\t}\n")
+			g.feats["conditional"] = true
+		case 2:
+			fmt.Fprintf(&g.b, "\tfor i := 0; i < x%%%d; i++ {\n\t\tx += i\n", 2+g.pick(3, "trips"))
+			for d := 0; d < nd; d++ {
+				g.deferStmt("\t\t", true)
+			}
+			fmt.Fprintf(&g.b, "\t}\n")
+			g.feats["loop"] = true
+		case 3:
+			fmt.Fprintf(&g.b, "\tfor i := range seq(%d) {\n\t\tx += i\n", 1+g.pick(3, "trips"))
+			g.inRangeFunc++
+			for d := 0; d < nd; d++ {
+				g.deferStmt("\t\t", true)
+			}
+			g.inRangeFunc--
+			fmt.Fprintf(&g.b, "\t}\n")
+			g.feats["rangefunc"] = true
+		}
+		if g.pick(3, "between") == 0 {
+			fmt.Fprintf(&g.b, "\ttr(%d, %d, x)\n\tx = x*3 + 1\n", g.unit, 10+g.pick(90, "id"))
+		}
+	}
+	if strings.Contains(shape, "l") && strings.Contains(shape, "c") && strings.Count(shape, "l")+strings.Count(shape, "r") >= 2 {
+		g.feats["loops_around_conditional"] = true
+	}
+	id := g.pick(90, "id") + 10
+	t := g.pick(7, "terminator")
+	if g.stormy && t == 0 {
+		t = 1 + 2*g.pick(2, "panic_or_goexit")
+	}
+	switch {
+	case t == 1:
+		fmt.Fprintf(&g.b, "\tif x%%%d == 0 {\n\t\tpanic(%d)\n\t}\n", 1+g.pick(2, "pmod"), id)
+		g.feats["panic"] = true
+	case t == 2:
+		fmt.Fprintf(&g.b, "\tif x%%%d == 0 {\n\t\tx += fault(%d, x%%5+3)\n\t}\n", 1+g.pick(2, "fmod"), g.pick(4, "fkind"))
+		g.feats["fault"] = true
+	case (t == 3 || t == 4) && g.goexit:
+		fmt.Fprintf(&g.b, "\tif x%%%d == 0 {\n\t\truntime.Goexit()\n\t}\n", 1+g.pick(2, "gmod"))
+		g.feats["goexit"] = true
+	case t == 5 && g.nfn < 4:
+		fmt.Fprintf(&g.b, "\tx += f%d_%d(x %% 7)\n", g.unit, g.nfn+1)
+		g.feats["call_chain"] = true
+		g.curRefs = true
+	case t == 6:
+		fmt.Fprintf(&g.b, "\tif x%%2 == 1 {\n\t\treturn x + %d\n\t}\n", id)
+		g.feats["early_return"] = true
+	}
+	fmt.Fprintf(&g.b, "\ttr(%d, %d, x)\n", g.unit, id)
 }
 
 func (g *gen) feat(inLoop bool, name string) {
@@ -182,13 +317,14 @@ type unitInfo struct {
 	Source string
 }
 
-func (g *gen) unitSrc(u int, indirect bool) unitInfo {
+func (g *gen) unitSrc(u int, indirect, nested bool) unitInfo {
 	g.unit, g.feats = u, map[string]bool{}
+	g.nested, g.reach = nested, map[int]bool{}
 	start := g.b.Len()
 	// up to 5 functions f<u>_0 … ; callee indices are larger than caller's, so no recursion
 	nf := 1 + g.pick(4, "nfuncs")
 	for fi := nf - 1; fi >= 0; fi-- {
-		g.nfn = fi
+		g.nfn, g.fi, g.curRecov, g.curRefs = fi, fi, false, false
 		if fi >= nf-1 {
 			g.nfn = 4 // the last function calls nobody
 		}
@@ -199,7 +335,12 @@ func (g *gen) unitSrc(u int, indirect bool) unitInfo {
 			g.feats["indirect_recover"] = true
 			continue
 		}
-		g.body(0, 10, false)
+		if g.pick(5, "skeleton") < 2 {
+			g.skeleton()
+		} else {
+			g.body(0, 10, false)
+		}
+		g.reach[fi] = g.curRecov || (g.curRefs && g.reach[fi+1])
 		fmt.Fprintf(&g.b, "\treturn r + x\n}\n\n")
 	}
 	// fix dangling callee references: functions with index >= nf do not exist
@@ -234,7 +375,8 @@ func (g *gen) program(nunits int) (string, []unitInfo) {
 	for u := 0; u < nunits; u++ {
 		g.b.Reset()
 		indirect := g.pick(12, "indirect") == 0
-		ui := g.unitSrc(u, indirect)
+		nested := !indirect && g.pick(10, "nested") == 0
+		ui := g.unitSrc(u, indirect, nested)
 		units = append(units, ui)
 		all.WriteString(ui.Source)
 		arg := g.pick(7, "arg")
@@ -294,6 +436,9 @@ func TestC04Programs(t *testing.T) {
 			for _, f := range ui.Feats {
 				cls = append(cls, "unit_"+f)
 			}
+			if has(ui.Feats, "goexit") && has(ui.Feats, "repanic") && has(ui.Feats, "recoverer") {
+				cls = append(cls, "unit_goexit_with_panicking_and_recovering_defers")
+			}
 			c.Case(vstat.Hash("c04", ui.Source, strings.Join(refUnits[u], "\n")), nt, cls...)
 			if nt {
 				c.Sample(map[string]any{"kind": "unit", "features": ui.Feats, "source": ui.Source, "gc_trace": refUnits[u]})
@@ -323,6 +468,8 @@ func TestC04Programs(t *testing.T) {
 				key := "C04:trace"
 				if has(units[u].Feats, "indirect_recover") {
 					key = "C04:recover-from-helper-frame"
+				} else if has(units[u].Feats, "recover_below_deferred_call") {
+					key = "C04:recover-below-panicking-deferred-call"
 				}
 				if c.IsKnown(key) {
 					c.KnownHit(key)
